@@ -25,6 +25,17 @@ def setup(E):
     qn = F + "_async_response"
     global TARGETS
     TARGETS = [t for t in TARGETS if not (isinstance(t, tuple) and t[1] == "answers")]
+    # the registration itself, in its own environment
+    E4 = type(E)()
+    from contracts import message as _m
+    _m.declare(E4)
+    sftp_file.declare_registration(E4)
+    rq = "paramiko.sftp_client.SFTPClient._async_request"
+    TARGETS = [t for t in TARGETS if not (isinstance(t, tuple) and t[1] == "registration")]
+    TARGETS.append((rq, "registration", dict(E4.contracts[rq], **{
+        "+replace": True, "+contracts": {k: v for k, v in E4.contracts.items() if k != rq},
+        "+fields": {c: dict(d["fields"]) for c, d in E4.classdecl.items()},
+        "+engine": {"ghost_types": dict(E.ghost_types, **E4.ghost_types), "inline_ok": set(E4.inline_ok) | set(E.inline_ok)}})))
     TARGETS.append((qn, "answers", dict(E2.contracts[qn], **{
         "+replace": True, "+contracts": {k: v for k, v in E2.contracts.items() if k != qn},
         "+fields": {c: dict(d["fields"]) for c, d in E2.classdecl.items()},
@@ -46,8 +57,9 @@ LEVEL_TEXT = ("Proof on the real AST with a ghost count of write requests whose 
               "exception no later than close(), also when another request took its status off the wire; "
               "SFTPClient._transfer_with_callback hands the writer exactly the bytes the reader delivered, in order, until "
               "the reader is exhausted, and returns their number (definitional loop invariant over ghost streams).")
-LEVEL_NOTE = ("Assumed: the server answers every request once; _async_request registers the request under the object given "
-              "(its body is not a target). Not decided: putfo's size confirmation via stat, getfo with prefetch (C28), short "
+LEVEL_NOTE = ("SFTPClient._async_request registers each request - under the number it returns and the object it was given - before "
+              "the request goes out on the wire, once, and never reuses a number (verified for a representative argument list "
+              "(handle, integer, data)). Assumed: the server answers every request once. Not decided: putfo's size confirmation via stat, getfo with prefetch (C28), short "
               "reads by the server inside SFTPFile._read. Defects this check found on the pinned tree are repaired: statuses "
               "of pipelined writes never read (fix d77a551); that repair made close() wait forever when another request had "
               "consumed the statuses, and such statuses were dropped (fix 3318fcf).")
